@@ -186,9 +186,9 @@ def check_proofs(prop: str, prop_files: list[str], targets: list[str],
     if p.returncode != 0:
         problems.append("axiom audit failed to elaborate: " + text[:400])
     # messages: "'name' depends on axioms: [a, b]" or "'name' does not depend on any axioms"
-    for m in re.finditer(r"'([^']+)' depends on axioms: \[([^\]]*)\]", text, re.S):
+    for m in re.finditer(r"'(\S+?)' depends on axioms: \[([^\]]*)\]", text, re.S):
         axioms[m.group(1)] = [a.strip() for a in m.group(2).replace("\n", " ").split(",") if a.strip()]
-    for m in re.finditer(r"'([^']+)' does not depend on any axioms", text):
+    for m in re.finditer(r"'(\S+?)' does not depend on any axioms", text):
         axioms[m.group(1)] = []
     discharged = 0
     for t in thms:
